@@ -583,30 +583,20 @@ func c13Element(c *Ctx, x *qctx, elem ssa.Value) queryElem {
 	noID := "the id passed on is not `query.Id, or range index + 1 when Id is 0`"
 	if call, ok := elem.(*ssa.Call); ok && calleeFunc(&call.Call) == c.a.ToPBResult {
 		res := queryElem{}
-		res.why = "the converted result is not what Execute returned for this query"
-		a0, x0 := x.resolve(call.Call.Args[0])
-		if e1, ok := a0.(*ssa.Extract); ok && e1.Index == 0 {
-			if ex, ok := e1.Tuple.(*ssa.Call); ok && calleeFunc(&ex.Call) == c.a.Execute {
-				res.why = "the executed query is not the conversion of the current request element"
-				a1, x1 := x0.resolve(ex.Call.Args[1])
-				if e2, ok := a1.(*ssa.Extract); ok && e2.Index == 0 {
-					if tq, ok := e2.Tuple.(*ssa.Call); ok && calleeFunc(&tq.Call) == c.a.ToQuery {
-						a2, x2 := x1.resolve(tq.Call.Args[0])
-						if x2.parent == nil && x2.cur != nil && a2 == x2.cur {
-							res.chainOK, res.why = true, ""
-						} else {
-							res.why = "the query converted is not the current element of the request"
-						}
-					}
-				}
-			}
-		}
+		// the result converted: Execute(ToQuery(current query)), possibly through a helper that hands the result on, or
+		// the result remembered for an identical query of the same batch (rules_ag31.go)
+		res.chainOK, res.why = c13Executed(c, x, call.Call.Args[0], true)
 		qv, xq := x.resolve(call.Call.Args[1])
 		res.idOK, res.idWhy = c13IDValue(c, qv, func(y ssa.Value) bool { return xq.cur != nil && derivesFrom(y, xq.cur) }, xq.idx, xq.idxOff, 0)
 		return res
 	}
 	hcall, callee, vals, ok := resultOrigins(c.w, elem)
 	if !ok || callee == c.a.ToPBResult {
+		if c13StoredMessage(elem) {
+			// a finished response message taken out of a map or slice: the message of an earlier query
+			w := "the appended element is a response message that was kept from an earlier query of the batch, not a message built for this query: it carries the earlier query's id, and one message object is sent twice"
+			return queryElem{why: w, idWhy: w}
+		}
 		return queryElem{why: "the appended element is not ToProtobufResult(...)", idWhy: noID}
 	}
 	if x.depth() >= 2 {
